@@ -68,11 +68,15 @@ ResolveCase(e) ==
                /\ CheckAll({"C09"}, <<"kind-wrong", e.id, i>>, ObsTarget(o, i).kind = G.kind[i])
      ELSE TRUE
 
+\* two loaded projects with one name: "name::target" would no longer denote one target (C19 as well as C14)
+DupNames(A) == \E d, e \in Loaded(A) \cap A.dirs : d # e /\ A.pname[d] # "" /\ A.pname[d] = A.pname[e]
+
 LoadCase(e) ==
   LET A == Arrangement(e.m) IN
   /\ CheckAll({"C14"}, <<"panic", e.id>>, e.obs.verdict # "panic")
   /\ CheckAll({"C14"}, <<"verdict-differs-between-invocations", e.id>>, e.obs.same)
-  /\ CheckAll({"C14"}, <<"invalid-arrangement-accepted", e.id>>, ~ArrangementOK(A) => e.obs.verdict # "accept")
+  /\ CheckAll({"C14"} \cup (IF DupNames(A) THEN {"C19"} ELSE {}), <<"invalid-arrangement-accepted", e.id>>,
+              ~ArrangementOK(A) => e.obs.verdict # "accept")
   /\ CheckAll({"C14"}, <<"valid-arrangement-refused", e.id>>, ArrangementOK(A) => e.obs.verdict = "accept")
 
 DocCase(e) ==
